@@ -57,6 +57,7 @@ fn main() {
                         "dce" => { aelys_opt::DeadCodeEliminator::new().run(&mut t); }
                         "fold" => { aelys_opt::ConstantFolder::new().run(&mut t); }
                         "globalprop" => { aelys_opt::GlobalConstantPropagator::new().run(&mut t); }
+                        "globalprop-open" => { let mut g = aelys_opt::GlobalConstantPropagator::new(); g.set_top_level_open(true); g.run(&mut t); }
                         "unused" => { aelys_opt::passes::UnusedVarEliminator::new().run(&mut t); }
                         "unused-open" => { let mut u = aelys_opt::passes::UnusedVarEliminator::new(); u.set_top_level_open(true); u.run(&mut t); }
                         _ => {}
